@@ -3,12 +3,13 @@
 #pragma once
 #include "pbt.h"
 #include <vector>
+#include <algorithm>
 #include <string>
 
 namespace dg {
 
 struct Seg { int kind; size_t len; uint64_t seed; size_t period; size_t back; };
-static const char *KIND[] = {"random", "zeros", "ff", "const", "text", "periodic", "copy-back", "sawtooth", "lowent", "adler-a-zero"};
+static const char *KIND[] = {"random", "zeros", "ff", "const", "text", "periodic", "copy-back", "sawtooth", "lowent", "adler-a-zero", "zipf+rare-far-copies"};
 
 inline void expand(const std::vector<Seg> &segs, std::vector<uint8_t> &d) {
 	d.clear();
@@ -21,6 +22,37 @@ inline void expand(const std::vector<Seg> &segs, std::vector<uint8_t> &d) {
 			for (uint8_t x : d) sum += x;
 			uint32_t need = (uint32_t) ((65521 - sum % 65521) % 65521);
 			while (need) { uint8_t v = need > 255 ? 255 : (uint8_t) need; d.push_back(v); need -= v; }
+			continue;
+		}
+		if (s.kind == 10) {
+			// geometric byte-value frequencies (a few very common values, a tail of rare ones) with rare copies of rare lengths from 16..32 KiB back:
+			// the per-block Huffman codes of all three alphabets get long, single tokens reach 40..48 bits
+			for (size_t i = 0; i < s.len;) {
+				uint64_t h = pbt::mix64(s.seed + i * 0x9E37);
+				size_t pos = base + i;
+				if (pos > 16400 && h % 1500 == 0) {
+					// a burst of 1..8 consecutive copies (a whole group of tokens with long codes and 5 + 13 extra bits)
+					int burst = 1 + (int) ((h >> 50) % 8);
+					for (int b = 0; b < burst && i < s.len; b++) {
+						uint64_t g = pbt::mix64(h + b * 0x51);
+						size_t p2 = base + i;
+						size_t dist = 16385 + (g >> 12) % std::min<size_t>(p2 - 16385 + 1, 16384);
+						size_t n = (g >> 40) % 3 == 0 ? 3 + (g >> 32) % 30 : 35 + (g >> 32) % 216;
+						for (size_t k = 0; k < n && i < s.len; k++, i++) d.push_back(d[base + i - dist]);
+					}
+					continue;
+				}
+				if (s.seed & 1) { // text-like base: plenty of short near matches, so that the far distances and long lengths stay rare symbols
+					static const char *W[] = {"the ", "quick ", "brown ", "fox ", "jumps ", "over ", "lazy ", "dog. ", "and ", "then ", "again ", "it ", "was ", "not ", "quite ", "so, "};
+					const char *w = W[(h >> 20) % 16];
+					for (const char *q = w; *q && i < s.len; q++, i++) d.push_back((uint8_t) *q);
+					if ((h >> 30) % 5 == 0 && i < s.len) { d.push_back((uint8_t) (h >> 33)); i++; }
+					continue;
+				}
+				int rank = __builtin_ctzll(h | (1ull << 40)) ; // P(rank = r) = 2^-(r+1)
+				d.push_back((uint8_t) (pbt::mix64(s.seed + 77 * rank) >> 13));
+				i++;
+			}
 			continue;
 		}
 		for (size_t i = 0; i < s.len; i++) {
@@ -65,7 +97,7 @@ inline void gen(pbt::Tape &t, std::vector<Seg> &segs, size_t cap, int *cls_out =
 	case 5: seg(0, (size_t) t.range(65536 + 1, 140000)); if (t.coin()) seg((int) t.range(1, 8), (size_t) t.range(1, 3000)); break;
 	default: {
 		// >= 2*32 KiB + 288 so the internal window wraps; repeats at long range
-		seg((int) t.pick<uint32_t>({4, 0, 5, 8}), (size_t) t.range(20000, 40000));
+		seg((int) t.pick<uint32_t>({4, 0, 5, 8, 10, 10}), (size_t) t.range(20000, 40000));
 		seg(6, (size_t) t.range(30000, 50000));
 		seg((int) t.range(0, 8), (size_t) t.range(1, 20000));
 		if (t.coin()) seg(6, (size_t) t.range(1000, 30000));
@@ -82,6 +114,8 @@ inline void gen(pbt::Tape &t, std::vector<Seg> &segs, size_t cap, int *cls_out =
 	for (auto &s : segs) total += s.len;
 	while (total > cap && !segs.empty()) { total -= segs.back().len; segs.pop_back(); }
 	if (cls >= 1 && !segs.empty() && t.range(0, 5) == 0) segs.push_back(Seg{9, 0, 0, 1, 0}); // up to 257 bytes beyond cap
+	// one medium or large input in eight consists of skewed data with rare far copies only
+	if (cls >= 3 && cap >= 60000 && t.range(0, 7) == 0) { segs.clear(); segs.push_back(Seg{10, (size_t) t.range(20000, std::min<size_t>(cap, 120000)), t.bits64(), 1, 0}); }
 }
 
 inline std::string describe(const std::vector<Seg> &segs) {
